@@ -57,14 +57,81 @@ A(Stub(CSSP, "read_ts_validate", mod="cssp", why=DER_WHY, ensures=["r is Ok ==> 
 A(Stub(CSSP, "create_ts_credentials", mod="cssp", why=DER_WHY, ensures=["r@ == der_ts_credentials(domain@, user@, password@)"]))
 A(Stub(CSSP, "create_ts_authinfo", mod="cssp", why=DER_WHY, ensures=["r@ == der_ts_authinfo(auth_info@)"]))
 
-# TODO(agent): ghost snapshots + claims
+KEY = "certificate.tbs_certificate.subject_pki.subject_public_key.data@"
+EMPTY_OR = lambda v, f: "%s@ == (if restricted_admin_mode { Seq::<u8>::empty() } else { authentication_protocol.%s() })" % (v, f)
+
+# ghost snapshots (declarations only) and proof aids. Hints are NOT property obligations; the claims below are.
+# The snapshots are kept in hint entries of their own (no assertion inside) so that they survive a hint-free re-run.
+HINTS = [
+    (r"link\.write\(&negotiate_message\)\?;", 1, "let ghost w1 = link.written();"),
+    (r"link\.write\(&negotiate_message\)\?;", 1, "proof { assert(is_prefix(wi, w1)); }"),
+    (r"let client_challenge = ", 1, "let ghost cc = client_challenge@;"),
+    # state of the security interface before the first wrap
+    (r"let certificate = read_public_certificate", 1, "let ghost seal0 = |d: Seq<u8>| security_interface.seal_spec(d);"),
+    # written bytes after the second message; unread input and state of the security interface before the second read / the unwrap
+    (r"link\.write\(&challenge\)\?;", 1,
+     "let ghost w2 = link.written(); let ghost rest0 = link.rest(); let ghost unseal0 = |d: Seq<u8>| security_interface.unseal_spec(d);"),
+    (r"link\.write\(&challenge\)\?;", 1, "proof { assert(is_prefix(wi, w2)); }"),
+    # state of the security interface before the second wrap; the three vectors (moved into create_ts_credentials by the next statement)
+    (r"let credentials = ", 1,
+     "let ghost seal2 = |d: Seq<u8>| security_interface.seal_spec(d); let ghost dom = domain@; let ghost usr = user@; let ghost pwd = password@;", "before"),
+    # witnesses of the existential of `three-messages-credentials-last`
+    (r"Ok\(\(\)\)", 1,
+     """proof {
+        let n = choose|n: Seq<u8>| negotiate_message@ == der_ts_request(n);
+        let s1 = seal0(pk); let s2 = seal2(der_ts_credentials(dom, usr, pwd));
+        assert(link.written() =~= wi + der_ts_request(n) + der_ts_authenticate(cc, s1) + der_ts_authinfo(s2));
+        assert((der_ts_request(n) + der_ts_authenticate(cc, s1) + der_ts_authinfo(s2)) == (der_ts_request(n) + der_ts_authenticate(cc, s1) + der_ts_authinfo(s2)));
+    }""", "before"),
+]
+
+# Every assertion inside a claim block is part of the claim (a failure of any of them is reported as a violation of the claim's properties);
+# the leading assertions of a block are the steps of its own proof, the LAST one is the claim as stated in the task.
+CLAIMS = [
+    # 1. at the point where the credentials start to be built the unsealed reply is THIS link's certificate key + 1.
+    #    key == peer_key(): get_peer_certificate (key() == peer_key()), to_der and read_public_certificate (both through der_cert_key),
+    #    frame4 of the write / read in between. Arithmetic: BigUint from_bytes_le (le_nat), new(vec![1]) (one digit), Add (big_of), != , axiom_big_of.
+    (r"let domain = if restricted_admin_mode", 1,
+     "proof { broadcast use axiom_big_of; assert(%s == link.peer_key());\n"
+     "        assert(le_nat(inc_pub_key@) == le_nat(link.peer_key()) + 1); }" % KEY, "before", "C01", "validated-before-credentials"),
+    # 2. inc_pub_key is what the security interface (state before the call: unseal0) accepted for the pubKeyAuth token of the
+    #    TSRequest made of exactly the bytes rest0.take(k) this link.read(0) consumed (rest0: unread input just before).
+    #    Witnesses: k = number of bytes consumed, tok = the pubKeyAuth of those bytes.
+    (r"let inc_pub_key = ", 1,
+     "proof { let k0 = rest0.len() - link.rest().len(); let tok0 = ts_pub_key_auth(rest0.take(k0))->Some_0;\n"
+     "        assert(link.rest() == rest0.skip(k0)); assert(ts_pub_key_auth(rest0.take(k0)) == Some(tok0) && unseal0(tok0) == Some(inc_pub_key@));\n"
+     "        assert(exists|k: int, tok: Seq<u8>| #![trigger ts_pub_key_auth(rest0.take(k)), unseal0(tok)]\n"
+     "            0 <= k <= rest0.len() && link.rest() == rest0.skip(k) && ts_pub_key_auth(rest0.take(k)) == Some(tok) && unseal0(tok) == Some(inc_pub_key@)); }",
+     "after", "C01", "reply-was-unsealed-from-the-wire"),
+    # 3. the second message carries the seal (state before the wrap: seal0) of this link's certificate key
+    (r"let challenge = create_ts_authenticate", 1,
+     "proof { assert(challenge@ == der_ts_authenticate(cc, seal0(link.peer_key()))); }", "after", "C01", "pubkeyauth-seals-this-links-key"),
+    # 4. failed validation: nothing was written after the second message (and what was written is exactly the first two messages)
+    (r"return Err\(.*PossibleMITM", 1,
+     "proof { assert(w2 == wi + negotiate_message@ + challenge@); assert(link.written() == w2); }", "before", "C01", "nothing-written-after-failed-validation"),
+    # 5. restricted admin: empty domain, user, password
+    (r"let credentials = ", 1,
+     "proof { assert(%s); assert(%s); assert(%s); }" % (EMPTY_OR("domain", "domain_spec"), EMPTY_OR("user", "user_spec"), EMPTY_OR("password", "password_spec")),
+     "before", "C17", "credentials-by-mode"),
+    # 6. the third message is the TSRequest.authInfo of the SEAL (state before the second wrap: seal2) of the TSCredentials;
+    #    dom/usr/pwd are the ghost values of domain@/user@/password@ (the vectors are moved into create_ts_credentials);
+    #    the two extra assertions restate it without the ghost names
+    (r"let credentials = ", 1,
+     "proof { assert(restricted_admin_mode ==> credentials@ == der_ts_authinfo(seal2(der_ts_credentials(Seq::<u8>::empty(), Seq::<u8>::empty(), Seq::<u8>::empty()))));\n"
+     "        assert(!restricted_admin_mode ==> credentials@ == der_ts_authinfo(seal2(der_ts_credentials(authentication_protocol.domain_spec(), authentication_protocol.user_spec(), authentication_protocol.password_spec()))));\n"
+     "        assert(credentials@ == der_ts_authinfo(seal2(der_ts_credentials(dom, usr, pwd)))); }",
+     "after", "C17,C01", "credentials-only-sealed"),
+]
+
 A(Fn(CSSP, "cssp_connect", mod="cssp", props=["C01", "C17", "C07", "C03", "C02"],
      requires=["old(link).tls()"],
      ensures=[("C02", "link-stays-tls", "final(link).tls() && final(link).cert_checked() == old(link).cert_checked() && final(link).peer_key() == old(link).peer_key()"),
               (None, "monotone", "is_prefix(old(link).written(), final(link).written()) && is_suffix(final(link).rest(), old(link).rest())"),
               ("C01,C03", "three-messages-credentials-last", """r is Ok ==> exists|n: Seq<u8>, c: Seq<u8>, w1: Seq<u8>, w2: Seq<u8>|
                     #[trigger] (der_ts_request(n) + der_ts_authenticate(c, w1) + der_ts_authinfo(w2)) == (der_ts_request(n) + der_ts_authenticate(c, w1) + der_ts_authinfo(w2))
-                    && final(link).written() =~= old(link).written() + der_ts_request(n) + der_ts_authenticate(c, w1) + der_ts_authinfo(w2)""")]))
+                    && final(link).written() =~= old(link).written() + der_ts_request(n) + der_ts_authenticate(c, w1) + der_ts_authinfo(w2)""")],
+     pre="let ghost wi = link.written(); let ghost pk = link.peer_key();",
+     hints=HINTS, claims=CLAIMS))
 
 UNIT = Unit("cssp", F.UNIT.preludes + ["nla.rs"], items,
             uses={"cssp": ["use super::link::*;", "use super::sspi::*;"]}, mods=["link", "sspi", "cssp"])
